@@ -488,6 +488,9 @@ def main():
 
     if chk.replay:
         rp = __import__("json").load(open(chk.replay))
+        if rp.get("obligation", "").startswith("slow_work_thread_threshold"):
+            threshold_part()
+            chk.finish(level="proof", rule="replay: the threshold table")
         if rp.get("obligation", "").startswith("completion wrappers"):
             api_part([rp["case"]])
             chk.finish(level="proof", rule="replay of an API completion case")
